@@ -44,9 +44,21 @@ func c17Judge(k c17Case) *vlib.Failure {
 		}
 		cfg := k.Cfg.Config()
 		m, err := cors.NewMiddleware(cfg)
+		total := 0
 		for e := range cfgerrors.All(err) {
+			total++
 			if e != nil {
 				_ = e.Error()
+			}
+		}
+		// a consumer may stop at any position (a missed early exit makes the Go runtime panic)
+		for stop := 1; err != nil && stop <= total; stop++ {
+			n := 0
+			for range cfgerrors.All(err) {
+				n++
+				if n == stop {
+					break
+				}
 			}
 		}
 		m2 := new(cors.Middleware)
@@ -184,6 +196,37 @@ func checkC17(c *vlib.Ctx) (string, string) {
 				tryCfg(l)
 			}
 		}
+	}
+	// (c') every subset of simultaneous defects (list fields yield nested joins, integers plain leaves): the error
+	// tree is then traversed with a consumer stopping at every position (see c17Judge)
+	for mask := 0; mask < 1<<8; mask++ {
+		l := valid
+		if mask&1 != 0 {
+			l.Origins = []string{"https://example.com/", "https://a.b"}
+		}
+		if mask&2 != 0 {
+			l.Origins = append(append([]string{}, l.Origins...), "null", "https://a.b:0")
+		}
+		if mask&4 != 0 {
+			l.Methods = []string{"CONNECT", "PUT", "bad method"}
+		}
+		if mask&8 != 0 {
+			l.RequestHeaders = []string{"Cookie", "X-A", "bad name"}
+		}
+		if mask&16 != 0 {
+			l.ResponseHeaders = []string{"Set-Cookie", "X-R"}
+		}
+		if mask&32 != 0 {
+			l.MaxAge = -2
+		}
+		if mask&64 != 0 {
+			l.Status = 300
+		}
+		if mask&128 != 0 {
+			l.PNA, l.PNANoCORS, l.Credentialed = true, true, true
+			l.Origins = append(append([]string{}, l.Origins...), "*", "http://insecure.example")
+		}
+		tryCfg(l)
 	}
 	// (d) requests
 	disc := []string{"https://a.b", "https://*.a.b", "https://b.a:*", "http://1.2.3.4", "http://[::1]", "ab://c"}
